@@ -93,7 +93,16 @@ func (m *mTensor) plain() bool {
 	return true
 }
 
+// mMasked is a live masked tensor (kept apart: the other steps do not operate on masked tensors).
+type mMasked struct {
+	T    *tensor.Dense
+	arr  Arr
+	mask []bool
+	name string
+}
+
 type c19World struct {
+	masked []*mMasked
 	pop    []*mTensor
 	nextID int
 	desc   []string
@@ -674,6 +683,84 @@ func (c *C19Case) Run() string {
 				}
 				tensor.ReturnTensor(m.T)
 				note = "ReturnTensor(" + m.name + ")"
+			case "NewMasked":
+				if len(w.masked) >= 3 {
+					return
+				}
+				d := dtInt32
+				if st.Float {
+					d = dtF64
+				}
+				shape := []int{2 + abs(st.I)%3, 1 + abs(st.J)%5}
+				arr := seqArr(d, shape, st.Code%50)
+				mask := make([]bool, len(arr.E))
+				for k := range mask {
+					mask[k] = (st.K>>uint(k%6))&1 == 1 || k == int(st.Code)%len(mask)
+				}
+				var t *tensor.Dense
+				how := "WithBacking"
+				switch st.Code % 3 {
+				case 0:
+					t = tensor.New(tensor.WithShape(shape...), tensor.WithBacking(mkBacking(d, arr.E), append([]bool{}, mask...)))
+				case 1:
+					// the mask is made by the library on an unmasked tensor
+					how = "MaskFromSlice"
+					t = tensor.New(tensor.WithShape(shape...), tensor.WithBacking(mkBacking(d, arr.E)))
+					t.MaskFromSlice(append([]bool{}, mask...))
+				default:
+					// the mask is made by a masking predicate: exactly the elements equal to the first one
+					how = "MaskedEqual"
+					t = tensor.New(tensor.WithShape(shape...), tensor.WithBacking(mkBacking(d, arr.E)))
+					if err := t.MaskedEqual(arr.E[0]); err != nil {
+						stepErr = "MaskedEqual refused: " + err.Error()
+						return
+					}
+					for k := range mask {
+						mask[k] = eqVal(arr.E[k], arr.E[0])
+					}
+				}
+				mm := &mMasked{T: t, arr: arr, mask: mask, name: fmt.Sprintf("m%d", w.nextID)}
+				w.nextID++
+				w.masked = append(w.masked, mm)
+				note = fmt.Sprintf("%s=NewMasked(%s %v mask %v via %s)", mm.name, d.Name, shape, mask, how)
+			case "MaskedViewReturn":
+				// a view of a masked tensor is taken, looked at and handed back to the pool
+				if len(w.masked) == 0 {
+					return
+				}
+				mm := w.masked[abs(st.I)%len(w.masked)]
+				lo := abs(st.J) % mm.arr.Shape[0]
+				v, err := mm.T.Slice(RS{lo, mm.arr.Shape[0], 1})
+				note = fmt.Sprintf("ReturnTensor(%s[%d:])", mm.name, lo)
+				if err != nil {
+					stepErr = note + " refused: " + err.Error()
+					return
+				}
+				vd := v.(*tensor.Dense)
+				if vd.IsMasked() {
+					inner := mm.arr.Shape[1]
+					for k, cc := range coordsOf([]int(vd.Shape())) {
+						got, err := vd.MaskAt(cc...)
+						want := mm.mask[lo*inner+k]
+						if len(vd.Shape()) == 1 && mm.arr.Shape[0]-lo == 1 {
+							want = mm.mask[lo*inner+k]
+						}
+						if err != nil || got != want {
+							stepErr = fmt.Sprintf("%s: the view's mask at %v is %v (%v), the source's is %v", note, cc, got, err, want)
+							return
+						}
+					}
+				}
+				tensor.ReturnTensor(vd)
+			case "ReturnMasked":
+				if len(w.masked) == 0 {
+					return
+				}
+				i := abs(st.I) % len(w.masked)
+				mm := w.masked[i]
+				w.masked = append(w.masked[:i], w.masked[i+1:]...)
+				tensor.ReturnTensor(mm.T)
+				note = "ReturnTensor(" + mm.name + ")"
 			case "UsePool":
 				tensor.UsePool()
 			case "DontUsePool":
@@ -746,6 +833,25 @@ func (w *c19World) invariant(named []*mTensor, owneds []*owned, si int, note str
 	if msg := check(""); msg != "" {
 		return msg
 	}
+	// masks: a live masked tensor keeps its mask, and no other live tensor acquires one
+	for _, m := range w.pop {
+		if m.T.IsMasked() {
+			return fmt.Sprintf("after step %d (%s) live tensor %s, which was never given a mask, is masked (mask %v)", si, note, m.name, m.T.Mask())
+		}
+	}
+	for _, mm := range w.masked {
+		if !mm.T.IsMasked() {
+			return fmt.Sprintf("after step %d (%s) masked tensor %s lost its mask", si, note, mm.name)
+		}
+		if msg := compareAt(mm.T, mm.arr, eqVal); msg != "" {
+			return fmt.Sprintf("after step %d (%s) masked tensor %s no longer equals its model: %s", si, note, mm.name, msg)
+		}
+		for k, cc := range coordsOf(mm.arr.Shape) {
+			if got, err := mm.T.MaskAt(cc...); err != nil || got != mm.mask[k] {
+				return fmt.Sprintf("after step %d (%s) the mask of %s at %v is %v (%v), expected %v (whole mask %v, expected %v)", si, note, mm.name, cc, got, err, mm.mask[k], mm.T.Mask(), mm.mask)
+			}
+		}
+	}
 	for _, m := range w.pop {
 		m.strides = cloneInts(m.T.Strides())
 	}
@@ -813,7 +919,7 @@ func (w *c19World) invariant(named []*mTensor, owneds []*owned, si int, note str
 
 // ---------------------------------------------------------------- generator
 
-var c19Ops = []string{"New", "New", "Slice", "Slice", "T", "T", "UT", "UT", "Transpose", "RollAxis", "Reshape", "Clone", "Materialize", "SafeT", "SafeT", "Arith", "Arith", "Arith", "Sum", "Sum", "At", "SetAt", "Repeat", "RepeatReuse", "TensorMul", "ReturnTensor", "ReturnTensor", "UsePool", "DontUsePool", "GC"}
+var c19Ops = []string{"New", "New", "Slice", "Slice", "T", "T", "UT", "UT", "Transpose", "RollAxis", "Reshape", "Clone", "Materialize", "SafeT", "SafeT", "Arith", "Arith", "Arith", "Sum", "Sum", "At", "SetAt", "Repeat", "RepeatReuse", "TensorMul", "ReturnTensor", "ReturnTensor", "UsePool", "DontUsePool", "GC", "NewMasked", "MaskedViewReturn", "ReturnMasked"}
 
 func genC19(rt *rapid.T, minLen, maxLen int) *C19Case {
 	n := rapid.IntRange(minLen, maxLen).Draw(rt, "len")
@@ -845,7 +951,7 @@ func TestC19(t *testing.T) {
 		c := genC19(rt, 5, 40)
 		for i := range c.Steps {
 			if i >= 2 && rapid.IntRange(0, 2).Draw(rt, "bias") == 0 {
-				c.Steps[i].Op = rapid.SampledFrom([]string{"RollAxis", "UT", "T", "ReturnTensor", "New", "Slice", "Transpose", "Clone", "SafeT", "Reshape", "RepeatReuse"}).Draw(rt, "bop")
+				c.Steps[i].Op = rapid.SampledFrom([]string{"RollAxis", "UT", "T", "ReturnTensor", "New", "Slice", "Transpose", "Clone", "SafeT", "Reshape", "RepeatReuse", "NewMasked", "MaskedViewReturn", "ReturnMasked"}).Draw(rt, "bop")
 			}
 		}
 		return c
